@@ -107,6 +107,10 @@ func (req *Request) parse(con *Connection) {
 	p := buf
 	key, value,tmp := "", "",""
 	for p != "" {
+		// 空行表示头部结束，后面是 body (body 里出现 ": " 不能再当作头部解析)
+		if strings.HasPrefix(p, "\r\n") {
+			break
+		}
 		if key, tmp = match_until(p, ": ");key != "" {
 			p = tmp
 		}
